@@ -150,8 +150,6 @@ class Repo:
             from .inline import expand_keyword_dicts, inline_local_procedures, inline_unknown_functions, inline_unknown_nested, inline_return_temps, normalise_yoda, normalise_negated_if, normalise_small_forms, inline_single_use_temps
             self.fingerprints.update(fingerprints_of(tree, name))          # of the source as written, before any reading-in-place
             inline_return_temps(tree)
-            if os.environ.get('FSA_NO_TEMPS') != '1':
-                inline_single_use_temps(tree)
             normalise_yoda(tree)
             normalise_negated_if(tree)
             normalise_small_forms(tree)
@@ -161,6 +159,8 @@ class Repo:
             kn = _known_names().get(str(rel))
             if kn is not None:
                 inline_unknown_functions(tree, set(kn['functions']), {k: set(v) for k, v in kn['classes'].items()})
+            if os.environ.get('FSA_NO_TEMPS') != '1':
+                inline_single_use_temps(tree)         # last: the passes above read helpers at statement level (`x = helper(...)`)
             mod = Module(
                 name=name,
                 path=path,
